@@ -32,7 +32,10 @@ RULE = ('failure sets enumerated: every subset of failing positions for streams 
         'sources); batched apply / assign with failing batches; random C08 chains with one fail_on operator; num_threads=2 '
         '(multisets); resumable failing SOURCES that do not skip by themselves (SequenceDataSource: shardable; a user iterator '
         'class: one un-sharded source behind the _ThreadSafeIterator wrapper) x every non-empty failure set x num_threads 0/1/2 '
-        '(num_threads=1: compared in order).  non-trivial = at least one element fails and at least one survives')
+        '(num_threads=1: compared in order), first operator of every kind (assign / filter / sink first: the class of the '
+        'repaired F-C12-passed-on); skippable routing errors passed on between operators (every subset of records whose '
+        'output routing fails x the kind of the next operator); assign(batch_size=1..3) on aligned streams (last batch 1..b rows) x '
+        'failing reads x skipping on/off x a failing call with skipping off, and the same with one row too many (misaligned).  non-trivial = at least one element fails and at least one survives')
 
 N, P = G.N, G.P
 
@@ -119,13 +122,43 @@ def source_cases(ctx):
             yield c08.mk_case(copy.deepcopy(ops), recs(n), ignore=False, kind='gen', fail=fail[:1], tag='source:gen')
 
 
+def passed_on_cases(ctx):
+  """Skippable errors that are PASSED ON between operators (the input class of the repaired finding F-C12-passed-on
+  that does not come from the data source): `apply(ident, 'a', output_keys=('x', 'y'))` routes a 2-tuple and raises
+  ValueError (zip strict, in the UNGUARDED `_get_outputs` map) for an int — for every subset of such records, in front
+  of every operator kind (+ one more operator), skipping on / off, num_threads 0 / 1.  The English reference does not say
+  whether a routing error is skippable (`undefined`), so these cases bind through the model correspondence: the repaired
+  code skips the record in front of every operator kind (`C12_skip_any_partial`: `Ref.chainEventsS`)."""
+  nmax = 4 if ctx.quick else 6
+  route = {'op': 'apply', 'fn': {'f': 'ident'}, 'in': {'one': N('a')}, 'out': {'many': [N('x'), N('y')]}}
+  nexts = {
+      'assign': [{'op': 'assign', 'fn': {'f': 'neg'}, 'in': {'one': N('x')}, 'keys': {'one': N('h')}}],
+      'filter': [{'op': 'filter', 'fn': {'f': 'is_even'}, 'in': {'one': N('x')}}],
+      'sink': [{'op': 'sink', 'fn': {'f': 'counter'}, 'in': {'kw': [['x', N('y')]]}, 'is_sink': True}],
+      'apply': [{'op': 'apply', 'fn': {'f': 'add1'}, 'in': {'one': N('x')}, 'out': {'one': N('h')}}],
+      'select': [{'op': 'select', 'in': {'many': [N('y'), N('x')]}}],
+  }
+  i = 0
+  for nxt, ops in nexts.items():
+    for n in range(1, nmax + 1):
+      for s in subsets(n):
+        i += 1
+        items = [G.wd(a=(j if j in s else {'t': [j, 10 * j]})) for j in range(n)]
+        after = copy.deepcopy(AFTER['counter']) if i % 2 else []
+        if after:
+          after[0]['in'] = {'one': N('x')} if nxt not in ('apply',) else {'one': N('h')}
+        ignore = i % 5 != 0
+        yield c08.mk_case([copy.deepcopy(route)] + copy.deepcopy(ops) + after, items, ignore=ignore,
+                          threads=1 if i % 7 == 0 else 0, tag=f'passed-on:{nxt}')
+
+
 def threaded_source_cases(ctx):
   """Failing SOURCES (not failing functions) that can be read further after a failing read, under num_threads 0 / 1 / 2:
   the library's shardable `SequenceDataSource` (num_threads=1: one shard behind the `_ThreadSafeIterator` lock wrapper;
   num_threads=2: two shards) and an un-shardable user iterator class (always ONE source shared by the worker threads
   through the wrapper); every non-empty set of failing positions of streams of 2..4 (quick) records; the source does
-  not skip by itself, the runner does (or does not: the first error surfaces); the first operator is an `apply` / `select`
-  (an `assign` / `filter` / `sink` in that position is the input class of finding F-C12-passed-on)."""
+  not skip by itself, the runner does (or does not: the first error surfaces); the first operator is of every kind
+  (`assign` / `filter` / `sink` in that position: the input class of the REPAIRED finding F-C12-passed-on)."""
   nmax = 4 if ctx.quick else 6
   i = 0
   firsts = {'apply': AFTER['apply'], 'select': [{'op': 'select', 'in': {'many': [N('a'), N('b')]}}],
@@ -161,6 +194,44 @@ def batched_cases(ctx):
                               col_recs(n), ignore=ignore, tag='batched:assign')
 
 
+def aligned_assign_cases(ctx):
+  """`assign(..., batch_size=b)` on ALIGNED streams (the domain of `C08_assign_batched_aligned_partial`): every incoming
+  column batch has exactly b rows, the last 1..b; b = 1..3; with failing reads of a source that does not skip by itself
+  (every subset of up to 2 positions, skipping on and off), with a failing call under skipping OFF (the first error
+  surfaces; under skipping ON a failing call is finding F5), with a second operator behind; plus the same streams with ONE
+  row too many in a middle batch (misaligned: finding F-C08-assign-rebatch)."""
+  nmax = 3 if ctx.quick else 5
+  i = 0
+  for b in (1, 2, 3):
+    for n in range(1, nmax + 1):
+      for last in range(1, b + 1):
+        sizes = [b] * (n - 1) + [last]
+        rows, items = 0, []
+        for sz in sizes:
+          items.append(G.wd(v=G.wl(list(range(rows, rows + sz))), w=G.wl(list(range(100 + rows, 100 + rows + sz)))))
+          rows += sz
+        for s in subsets(n):
+          if len(s) > 2:
+            continue
+          for ignore in (True, False):
+            i += 1
+            spec = {'op': 'assign', 'fn': {'f': 'v_add1'}, 'in': {'one': N('v')}, 'keys': {'one': N('o')}, 'batch': b}
+            after = [] if i % 3 else [{'op': 'assign', 'fn': {'f': 'v_sum2'}, 'in': {'many': [N('o'), N('w')]}, 'keys': {'one': N('p')}}]
+            yield c08.mk_case([spec] + after, copy.deepcopy(items), ignore=ignore, kind='seq' if s else 'list',
+                              fail=[(j, 'ValueError' if (i + j) % 4 else 'KeyError') for j in s], src_ignore=False,
+                              tag='aligned-assign')
+            if not s and not ignore and n >= 2:
+              # a failing call, skipping off
+              for k in range(rows):
+                if (i + k) % 2:
+                  fspec = dict(spec, fn={'f': 'v_fail_on', 's': [k], 'kind': 'ValueError'})
+                  yield c08.mk_case([fspec], copy.deepcopy(items), ignore=False, tag='aligned-assign:failing-call')
+            if not s and n >= 2 and i % 2:
+              bad = copy.deepcopy(items)
+              bad[0]['d']['v']['l'].append(999); bad[0]['d']['w']['l'].append(1999)
+              yield c08.mk_case([spec], bad, ignore=ignore, tag='misaligned-assign')
+
+
 def gen_cases(ctx):
   rng, quick = ctx.rng, ctx.quick
 
@@ -183,6 +254,8 @@ def gen_cases(ctx):
   yield from counted(source_cases(ctx), 'source')
   yield from counted(batched_cases(ctx), 'batched')
   yield from counted(threaded_source_cases(ctx), 'tsource')
+  yield from counted(passed_on_cases(ctx), 'passed-on')
+  yield from counted(aligned_assign_cases(ctx), 'aligned-assign')
 
   def rand(n):
     for _ in range(n):
@@ -216,25 +289,82 @@ def extra(ctx):
     ctx.extra_disagreements.append(('skippable-types', None, dict(
         why=f'iter_utils._IGNORE_ERROR_TYPES is {got}, the model (Iter.Err.ignorable) assumes {L.SKIPPABLE}')))
   need = ['op:apply', 'op:assign', 'op:filter', 'op:sink', 'source:apply', 'source:assign', 'batched:apply', 'batched:assign',
-          'random', 'threads'] + [f'tsource:{k}:t{t}' for k in ('seq', 'iter') for t in (0, 1, 2)]
+          'random', 'threads', 'source-noskip:assign', 'source-noskip:filter', 'source-noskip:sink', 'passed-on:assign',
+          'passed-on:filter', 'passed-on:sink', 'aligned-assign', 'aligned-assign:failing-call'] + [f'tsource:{k}:t{t}' for k in ('seq', 'iter') for t in (0, 1, 2)]
   missing = [c for c in need if c not in ctx.hist.get('class', {})]
   if missing:
     raise InfraError(f'generator missed promised classes: {missing}')
   c08.export_stats(ctx)
+  inside = c08.STATS.get('assign_batched_aligned_theorem', {}).get('aligned: side-conditions hold', 0)
+  if inside < 100:
+    raise InfraError(f'only {inside} generated cases were inside the domain of C08_assign_batched_aligned_partial')
+  if c08.STATS.get('any_source_theorem_pyref', {}).get('compared', 0) < 1000:
+    raise InfraError('the any-source reference (Ref.chainEventsS) was compared with the Python reference on fewer than 1000 cases')
 
 
 # ----------------------------------------------------------------------------- impl / model / oracle
 
-run_impl = c08.run_impl
-
-
 model_requests = c08.model_requests
 model_obs = c08.model_obs
-compare = c08.compare
+
+# predicates of the named library that return one truth value whatever they are given (`OpOK.pred` is not decidable)
+_PLAIN_PREDICATES = ('is_even', 'gt')
+
+
+def compare_any_source(impl, model):
+  """Instances of `C12_skip_any_partial` / `C08_refines_assign_aligned_partial`: whenever the decidable side conditions
+  hold (`refa_ok` = Ref.runOKAB: every operator un-batched with SelfAlone, or an `assign` with batch_size on ALIGNED call
+  results) and no predicate can return a tuple, the model of the code must equal the Lean reference for chains over ANY
+  source (`Ref.chainEventsS`: passed-on skippable errors are skipped by the next operator) — no CleanRun condition; and
+  that reference must agree with the independent Python reference wherever the latter is defined."""
+  if impl.get('threads') or impl.get('build') is not None or impl.get('agg') or impl.get('hang') or 'make_error' in impl \
+      or 'refa_ok' not in model:
+    return None
+  ok = bool(model['refa_ok'])
+  if model.get('refa_assign'):
+    c08._stat('assign_batched_aligned_theorem', 'aligned: side-conditions hold' if ok else 'outside (misaligned, fn_batch_size, skipped failing call)')
+  c08._stat('any_source_theorem', 'side-conditions hold' if ok else 'outside (batch sizes, SELF first of several keys)')
+  if not ok:
+    return None
+  case_filters = impl.get('filter_fns')
+  ref = impl.get('pyref') or {}
+  undefined = ref.get('err') is not None and ref['err'][0] == 'undefined'
+  if case_filters is None or any(f not in _PLAIN_PREDICATES for f in case_filters):
+    if undefined:
+      return None          # possibly a predicate that returned a tuple: outside OpOK.pred
+  for k, rk in (('out', 'refs_out'), ('err', 'refs_err'), ('cause', 'refs_cause')):
+    if model.get(k) != model[rk]:
+      return (f"the Lean reference Ref.chainEventsS differs from the Lean model of the code although the side conditions of "
+              f"C12_skip_any_partial / C08_refines_assign_aligned_partial hold: {k}: {jdump(model[rk])[:200]} / {jdump(model.get(k))[:200]}")
+  if undefined or 'crash' in ref or ref.get('out') is None or ref.get('lenient'):
+    return None
+  c08._stat('any_source_theorem_pyref', 'compared')
+  if (ref['err'] is None) != (model['refs_err'] is None):
+    return f"reference interpreters differ on err (any-source reference): py {ref['err']} / lean {model['refs_err']}"
+  if ref.get('exact') or ref['err'] is None:
+    if ref['out'] != model['refs_out']:
+      return f"reference interpreters differ (any-source reference): py {jdump(ref['out'])[:300]} / lean {jdump(model['refs_out'])[:300]}"
+  elif model['refs_out'] != ref['out'][:len(model['refs_out'])]:
+    return 'Lean any-source reference output before the error is not a prefix of the failure-free Python reference'
+  return None
+
+
+def compare(impl, model):
+  d = c08.compare(impl, model)
+  return d if d is not None else compare_any_source(impl, model)
+
+
+def run_impl(case):
+  obs = c08.run_impl(case)
+  if isinstance(obs, dict):
+    obs['filter_fns'] = [(sp.get('fn') or {}).get('f') for sp in case['specs'] if sp['op'] == 'filter']
+  return obs
 
 
 def n_failing(case):
   n = len([1 for i, k in case['src'].get('fail', [])])
+  if case.get('tag', '').startswith('passed-on:'):
+    n += sum(1 for x in case['src']['items'] if isinstance(x['d']['a'], int))
   vals = {dec_a(x) for x in case['src']['items']}
   for sp in case['specs']:
     fn = sp.get('fn') or {}
@@ -247,7 +377,8 @@ def n_failing(case):
 
 def dec_a(x):
   try:
-    return x['d']['a']
+    a = x['d']['a']
+    return a if isinstance(a, int) else None
   except Exception:  # pylint: disable=broad-except
     return x if isinstance(x, int) else None
 
@@ -281,8 +412,6 @@ def finding(case, what):
   if case.get('ignore') and any(sp['op'] == 'assign' and sp.get('batch') and (sp.get('fn') or {}).get('f') == 'v_fail_on'
                                 for sp in specs) and not c08.assign_misaligned(case):
     return 'F5'
-  if source_passes_skippable(case) and specs and specs[0]['op'] in ('assign', 'filter', 'sink'):
-    return 'F-C12-passed-on'
   if what.startswith('[sink] a sink was written after') and case.get('threads'):
     return 'F-C08-sink-threads'
   if c08.assign_misaligned(case):
